@@ -71,7 +71,7 @@ func checkC10(r *Report, p *Program) {
 func r10_1(r *Report, p *Program, entries []syncEntry) {
 	const rule = "R10.1"
 	r.Rule(rule, "SyncObject(err==nil) dominates observe, hook and ManageChildren; on error: error return, no further call")
-	r.Floor(rule, 8)
+	r.Floor(rule, 10)
 	reach := writeReachers(p)
 	for _, e := range entries {
 		f := e.Fn
@@ -112,6 +112,44 @@ func r10_1(r *Report, p *Program, entries []syncEntry) {
 			}
 		}
 		r.Check(rule, FK(f)+"[SyncObject-fails⇒abort]", p.InstrPos(e.SyncObj.Instr), ok, "failure ⇒ immediate error return", why)
+		// a parent that carries our finalizer always reaches SyncObject: the only way to
+		// return before it is across 'does not contain our finalizer' (∧ does not match)
+		soi := e.SyncObj.Instr.(ssa.Instruction)
+		hasNoFin := func(l Lit) bool {
+			if l.Pos {
+				return false
+			}
+			if l.Implied {
+				return strings.HasPrefix(l.Atom, "call(controllerutil.ContainsFinalizer)(p1,") && strings.HasSuffix(l.Atom, ".finalizer.Name)")
+			}
+			c, isC := l.Cond.(*ssa.Call)
+			return isC && strings.HasSuffix(engine.CallKey(c.Common()), "controllerutil.ContainsFinalizer") && E(c.Common().Args[0]) == "p1" && strings.HasSuffix(E(c.Common().Args[1]), ".finalizer.Name")
+		}
+		wf := engine.Query{Fn: f, Target: func(in ssa.Instruction) bool { rt, isR := in.(*ssa.Return); return isR && !isErrReturn(rt) },
+			CutInstr: func(in ssa.Instruction) bool { return in == soi },
+			CutEdge: func(b *ssa.BasicBlock, i int, l *Lit) bool {
+				if l == nil {
+					return false
+				}
+				if hasNoFin(*l) {
+					return true
+				}
+				alts := engine.ExpandLitDNF(*l)
+				if len(alts) == 0 {
+					return false
+				}
+				for _, alt := range alts {
+					hit := false
+					for _, il := range alt {
+						hit = hit || hasNoFin(il)
+					}
+					if !hit {
+						return false
+					}
+				}
+				return true
+			}}.Find()
+		r.Check(rule, FK(f)+"[has-finalizer⇒SyncObject]", p.InstrPos(soi), wf == nil, "returns before the finalizer sync only for parents without our finalizer", "a parent that still carries our finalizer can be skipped before finalizer.SyncObject (e.g. because it stopped matching, or the finalize hook was removed): the finalizer is never removed and blocks the parent's deletion; "+pathWhy(wf))
 		// the parent used afterwards is the one SyncObject returned
 		upd := engine.ResultValue(e.SyncObj.Instr, 0)
 		okP := upd != nil && engine.DependsOnValue(e.Manage.Common().Args[2], upd, nil)
